@@ -145,7 +145,7 @@ func drawAtk(c *kernel.Choices, script bool) atk {
 	a.inner = c.Chance(1, 4)
 	switch c.Weighted([]int{5, 2, 2, 2, 2, 1}) {
 	case 1: // origin-send rules: own coins through an origin-send banker
-		a.op, a.acq, a.bt, a.rlm, a.from = pick(0, 0, 6, 7), pick(0, 0, 1, 3), 0, 0, 5
+		a.op, a.acq, a.bt, a.rlm, a.from = pick(0, 0, 6, 7, 1, 1), pick(0, 0, 1, 3), 0, 0, 5 // incl. a denomination that did NOT come with the call
 		if a.wrap >= 4 {
 			a.inner = false
 		}
@@ -428,8 +428,15 @@ func (a atk) ownSpend(script bool, send, amt int64) (denom string, allowed int64
 		return "", 0
 	}
 	total := int64(a.rep) * amt
-	if a.bt == 0 && total > send { // origin-send banker: never more than what came with the call
-		total = send
+	if a.bt == 0 {
+		// origin-send banker: never more than what came with the call, denomination by denomination;
+		// the simulator only ever attaches ugnot, so no other denomination can leave through it
+		if op.send != "ugnot" {
+			return "", 0
+		}
+		if total > send {
+			total = send
+		}
 	}
 	return op.send, total
 }
@@ -454,6 +461,9 @@ func (w *coinWorld) genAttack() *ctTx {
 	case 0:
 		i := c.Intn(len(w.atks))
 		a = w.atks[i]
+		if a.bt == 0 && a.from == 5 && send == 0 && c.Chance(2, 3) {
+			send = []int64{1, 1000, 250_000}[c.Intn(3)] // an origin-send banker is only interesting with coins attached
+		}
 		t.bytes = w.call(signer, thiefPath, fmt.Sprintf("A%d", i), send, victim.String(), to.String(), strconv.FormatInt(amt, 10))
 		t.desc = fmt.Sprintf("call thief.A%d{%s}(victim=%s,to=%s,amt=%d) send=%d", i, a.name(), w.label(victim), w.label(to), amt, send)
 		t.attack = a.template()
@@ -535,7 +545,7 @@ func (w *coinWorld) genLegit() *ctTx {
 		}
 	case 3: // mint
 		amt := int64(1 + c.Intn(10_000))
-		to := []string{"vault", "vault", "alice", "bob", "thief"}[c.Intn(5)]
+		to := []string{"vault", "thief", "alice", "bob", "thief"}[c.Intn(5)]
 		t.bytes = w.call(signer, vaultPath, "Mint", 0, w.addrOf(to).String(), strconv.FormatInt(amt, 10))
 		t.desc = fmt.Sprintf("vault.Mint(%s,%d)", to, amt)
 		t.onOK = func(txResult) {
@@ -741,6 +751,9 @@ func runCoins(c *kernel.Choices, p kernel.Params) *kernel.Result {
 		}},
 		{"alice", "seed vault", func() []byte { return w.call("alice", vaultPath, "Deposit", 30_000_000, "seed") }},
 		{"alice", "seed vault denom", func() []byte { return w.call("alice", vaultPath, "Mint", 0, w.vaultAddr.String(), "100000") }},
+		// the thief holds some of the vault's denomination too: its own coins of a denomination that never comes
+		// attached to a call (origin-send rules are per denomination)
+		{"alice", "thief gets vault denom", func() []byte { return w.call("alice", vaultPath, "Mint", 0, w.thiefAddr.String(), "5000") }},
 	}
 	if c.Bool() {
 		setup = append(setup, setupTx{"chaos1", "thief keeps its own bankers", func() []byte { return w.call("chaos1", thiefPath, "Keep", 0) }})
@@ -758,7 +771,7 @@ func runCoins(c *kernel.Choices, p kernel.Params) *kernel.Result {
 		}
 	}
 	w.ref.endBlockCommit(b)
-	w.vltSupply = 100000
+	w.vltSupply = 105000
 	au, err = newAuditor(w.ref.disk, b.Height)
 	if err != nil {
 		kernel.Harnessf("auditor after setup: %v", err)
@@ -769,7 +782,7 @@ func runCoins(c *kernel.Choices, p kernel.Params) *kernel.Result {
 		}
 	}
 	w.sync(au)
-	if w.lower["vault"]["ugnot"] != 30_000_000 || w.lower["thief"]["ugnot"] != 20_000_000 || w.lower["vault"][vaultDenom] != 100000 || w.lower["vault-storage"]["ugnot"] == 0 {
+	if w.lower["vault"]["ugnot"] != 30_000_000 || w.lower["thief"]["ugnot"] != 20_000_000 || w.lower["vault"][vaultDenom] != 100000 || w.lower["thief"][vaultDenom] != 5000 || w.lower["vault-storage"]["ugnot"] == 0 {
 		kernel.Harnessf("setup balances: vault %v thief %v vault-storage %v", w.lower["vault"], w.lower["thief"], w.lower["vault-storage"])
 	}
 
